@@ -85,6 +85,21 @@ func encodeFunc(P *Program, CS *ContractSet, fn *ssa.Function, ct *Contract) *Fu
 		}
 		dir := scratchDir("houdini-" + sanitize(res.Name))
 		dischargeAllOpt(cands, dir, 4, false, 16, false)
+		// a candidate is dropped when it is refuted; one that is merely undecided within the short budget (a loaded
+		// machine) gets a second, longer attempt first, so that which candidates survive does not depend on timing
+		var again []*Obligation
+		for _, o := range cands {
+			if !o.Discharged() && o.Result.Verdict != "sat" {
+				again = append(again, o)
+			}
+		}
+		if len(again) > 0 && len(again) <= 8 {
+			dischargeAllOpt(again, dir+"-retry", 12, false, 8, false)
+		}
+		if os.Getenv("GOVC_KEEP") == "" {
+			os.RemoveAll(dir)
+			os.RemoveAll(dir + "-retry")
+		}
 		changed := false
 		for _, o := range cands {
 			if !o.Discharged() && !disabled[o.Detail] {
